@@ -102,6 +102,7 @@ type simConn struct {
 	pend    []byte // rest of a chunk that did not fit the slice
 	written []byte // every byte accepted
 	closedCh chan struct{} // closed together with the connection (optional)
+	closeDelay func() time.Duration // Close takes this long before it takes effect (optional)
 }
 
 func (c *simConn) Read(p []byte) (int, error) {
@@ -195,6 +196,11 @@ func (c *simConn) Write(p []byte) (int, error) {
 }
 
 func (c *simConn) Close() error {
+	if c.closeDelay != nil {
+		if d := c.closeDelay(); d > 0 {
+			time.Sleep(d)
+		}
+	}
 	c.mu.Lock()
 	defer c.mu.Unlock()
 	c.markClosed()
